@@ -669,10 +669,53 @@ class Facts:
                 res.append(fn)
         if allow_many:
             return res
+        if not res:
+            # a private stage function that goes by another name today (see stage_aliases)
+            al = self.stage_aliases().get((crate, suffix))
+            if al is not None and al != suffix:
+                return self.find(crate, al, exact=True, inline=inline, keep=keep)
         if len(res) != 1:
             raise AnchorLost("expected exactly one function %s in %s, found %d%s" % (
                 suffix, crate, len(res), "" if not res else " (" + ", ".join(f.path for f in res[:4]) + ")"))
         return self.inlined(res[0], keep=tuple(keep)) if inline else res[0]
+
+    def stage_aliases(self):
+        """The lookup families (Registry::lookup, Registry::canonicalize, Resolver::lookup) are an entry function that calls a
+        private "with prefix" stage of the same type, which calls a private "exact" stage.  The rules name the stages
+        `<entry>_with_prefix` / `<entry>_exact`; when the private functions are called something else they are found by that call
+        structure: {(crate, name the rules use): path today}."""
+        if "_stage_aliases" in self.__dict__:
+            return self._stage_aliases
+        self._stage_aliases = out = {}
+        crate = "rink_core"
+        by_path = {}
+        for g in self.by_crate.get(crate, []):
+            by_path.setdefault(g.path, []).append(g)
+        for ty, entry in (("loader::registry::Registry", "lookup"), ("loader::registry::Registry", "canonicalize"), ("loader::load::Resolver", "lookup")):
+            full = by_path.get(ty + "::" + entry, [])
+            if len(full) != 1:
+                continue
+
+            def private_callees(g, exclude):
+                seen = []
+                for h in [g] + [c for c in self.by_crate[crate] if (c.raw.get("root") or {}).get("id") == g.id]:
+                    for b in h.blocks:
+                        t = b["term"]
+                        if t["k"] == "call" and "callee" in t:
+                            p_ = t["callee"]["path"]
+                            if p_.startswith(ty + "::") and p_ not in exclude and p_ not in seen and len(by_path.get(p_, [])) == 1 \
+                                    and not by_path[p_][0].raw.get("public") and by_path[p_][0].raw.get("arg_count") == g.raw.get("arg_count"):
+                                seen.append(p_)
+                return seen
+            wp = private_callees(full[0], {full[0].path})
+            if len(wp) != 1:
+                continue
+            ex = private_callees(by_path[wp[0]][0], {full[0].path, wp[0]})
+            if len(ex) != 1:
+                continue
+            out[(crate, ty + "::" + entry + "_with_prefix")] = wp[0]
+            out[(crate, ty + "::" + entry + "_exact")] = ex[0]
+        return out
 
     def closures_of(self, fn):
         out = []
